@@ -132,11 +132,13 @@ func (rn *runner) recoverOne(st *state) *simcore.Violation {
 	rn.m.recoverTo(k)
 	rn.recovers = append(rn.recovers, recoverRec{seq: rn.w.clock.Now(), k: k})
 	t0 := rn.beginMut(pre)
+	rn.recStarted++
 	rn.mu.Unlock()
 	var err error
 	v := guard("recover", func() { err = rn.w.db.Recover(st.root) })
 	rn.mu.Lock()
 	rn.endMut(t0)
+	rn.recDone++
 	rn.logf("M", "recover #%d to id %d from %d err=%v", st.idx, k, diskID, err != nil)
 	rn.mu.Unlock()
 	if v != nil {
